@@ -77,5 +77,6 @@ fn run_mode(args: &[i128], rec: bool, nz: bool) -> Vec<i128> {
         (1,1,1,1),(1,1,1,2),(1,1,2,1),(1,2,1,1),(2,1,1,1),(1,2,3,1),(3,2,1,1),(1,1,3,2),
         (2,2,2,2),(1,2,3,4),(4,3,2,1),(2,3,1,2),(3,1,2,2),(2,1,3,1),(3,3,1,2),(1,3,2,3),
         (2,3,4,5),(5,4,3,2),(3,5,2,4),(4,2,5,3),(2,2,3,3),(3,3,2,2),(3,2,3,2),(2,3,2,3),
-        (3,3,3,3),(5,1,1,1),(1,5,1,1),(1,1,5,1),(1,1,1,5),(5,5,2,2),(2,2,5,5),(4,4,4,4))
+        (3,3,3,3),(5,1,1,1),(1,5,1,1),(1,1,5,1),(1,1,1,5),(5,5,2,2),(2,2,5,5),(4,4,4,4),
+        (300,300,1,1),(42,41,40,1),(17,16,17,16),(1,70000,1,1))      // the last four: more than 65 536 cells
 }
